@@ -158,7 +158,20 @@ def conv_record(vec, n):
             bsparse.to_array(bsparse.from_array([list(map(int, vec))])).ravel(), n),
         'hadamard_all': codes.bsf_to_op(
             bpauli.apply_deformation([True] * n, vec), n),
+        'hadamard_even': codes.bsf_to_op(
+            bpauli.apply_deformation([q % 2 == 0 for q in range(n)], vec), n),
     }
+    if 2 * n <= 30:
+        zero = np.zeros(2 * n, dtype=np.uint8)
+        ints = bpauli.bvectors_to_ints([vec, zero, vec[::-1].copy()])
+        back = bpauli.ints_to_bvectors(list(ints), n)
+        rec['ints_stack'] = [int(x) for x in ints]
+        rec['ints_stack_back'] = [codes.bsf_to_op(np.asarray(b).ravel(), n) for b in back]
+        rec['rev'] = codes.bsf_to_op(vec[::-1], n)
+    else:
+        rec['ints_stack'] = []
+        rec['ints_stack_back'] = []
+        rec['rev'] = {'x': [], 'z': []}
     return rec
 
 
@@ -181,7 +194,20 @@ def sparse_record(rng, width):
     ins = bsparse.from_array(a.reshape(1, -1))
     bsparse.insert_mod2(idx, ins)
     left, right = bsparse.hsplit(ra)
-    return {'kind': 'sparse', 'half': width // 2, 'idx': idx,
+    glued = bsparse.hstack([left, right])
+    stacked = bsparse.vstack([ra, rb, bsparse.zero_row(width)])
+    zr, zm, er = bsparse.zero_row(width), bsparse.zero_matrix((3, width)), bsparse.empty_row(width)
+    return {'kind': 'sparse', 'half': width // 2, 'idx': idx, 'width': width,
+            'glued': [int(c) for c in np.nonzero(bsparse.to_array(glued).ravel())[0]],
+            'glued_shape': [int(x) for x in glued.shape],
+            'stacked': [[int(c) for c in np.nonzero(r)[0]] for r in bsparse.to_array(stacked)],
+            'zero_row': [int(zr.shape[0]), int(zr.shape[1]), int(zr.nnz)],
+            'zero_matrix': [int(zm.shape[0]), int(zm.shape[1]), int(zm.nnz)],
+            'empty_row': [int(er.shape[0]), int(er.shape[1]), int(er.nnz)],
+            'is_empty': [bool(bsparse.is_empty(er)), bool(bsparse.is_empty(zr)),
+                         bool(bsparse.is_empty(ra))],
+            'is_sparse': [bool(bsparse.is_sparse(ra)), bool(bsparse.is_sparse(a)),
+                          bool(bsparse.is_sparse(a.tolist()))],
             'a': [int(c) for c in np.nonzero(a)[0]],
             'b': [int(c) for c in np.nonzero(b)[0]],
             'dot': int(bsparse.dot(ra, rb)),
